@@ -21,6 +21,18 @@ T = {
          "pic_based_rate_est=1 excluded (documented lp dependence). Host has one socket."),
  "C06": ("metamorphic equality across use_cpu_flags levels (and an AVX-512 build in thorough)", "3/C06",
          "Each configuration is encoded with use_cpu_flags C-only/SSE2/SSSE3/SSE4.1/AVX2/ALL; output hashes must equal the C-only run.", "Limited to ISA levels of the host."),
+ "C07": ("differential execution of every dispatch-table kernel against its C reference (table generated from the rtcd sources), plus exact-size ASan runs", "3/C07",
+         "gen/kernels.py parses the SET_* lines and prototypes of the tree under test (781 pointers, 768 with SIMD variants); for each signature class a domain-aware generator produces argument sets (every block size, odd strides, 8/10 bit, zero/max/alternating/ramp/random/planted extremes); the C reference and every variant the host supports run on identical copies and outputs, return values and guard bands are compared byte for byte; the same cases run on exact-size heap blocks under ASan. 750 kernels covered (97.7%), uncovered ones are listed by name in the evidence.",
+         "Argument domains come from the C references' asserts, the repo's unit tests and call sites; narrowed sub-domains are listed in evidence assumptions. AVX-512 variants only in the thorough tier (ENABLE_AVX512 build)."),
+ "C08": ("differential decode: SVT decoder (both pipelines) vs libaom and dav1d, sample-exact, on streams produced on the fly", "3/C08",
+         "Forced-feature and random SVT streams (film grain, 10-bit, tiles, screen content, overlays, LR on a 854x480 stream) are decoded by the SVT decoder with is_16bit_pipeline 0 and 1 and compared picture by picture with libaom and dav1d; exact-size input buffers under ASan.",
+         "Only SVT-produced streams (no independent encoder: libaom's encoder through dlopen was not built); streams the decoder reports as unsupported are counted, not failed."),
+ "C09": ("multi-thread vs single-thread decode under schedule perturbation; ASan; TSan with happens-before annotations (hook H6) modelling the intended volatile hand-off", "3/C09",
+         "Each stream is decoded with 2,3,4,8 (thorough up to 16) threads under perturbed schedules and must equal the single-thread pictures; teardown must return; ASan must be silent; TSan runs with per-address release/acquire annotations at the 77 hand-off sites so that only accesses the intended protocol does not order are reported; distinct hand-off interleavings are counted from the trace.",
+         "'Any interleaving' is sampled (80 distinct hand-off orders in the quick tier). The hand-off itself being a C11 race is one known finding."),
+ "C10": ("deterministic structured mutation fuzzing of svt_av1_dec_frame on the ASan+UBSan decoder build, regression corpus replay", "3/C10",
+         "One decoder session per input (init, frame(s), get_picture, teardown) on exact-size heap copies; quick = the committed corpus (134 seeds, 49 reproducers) + 20000 fresh mutants from an 18-strategy mutator seeded by VERIF_SEED (both framings, multi-call records, 16-bit pipeline); any ASan report, non-benign UBSan report, abort, or reproducible stall is a violation.",
+         "Single-threaded decoder as the property states. A libFuzzer target exists for campaigns; the registered check uses the deterministic Python mutator."),
  "C12": ("documented-domain predicate (rule table with citations) vs svt_av1_enc_set_parameter on fresh handles", "3/C12",
          "Single-field perturbations of the library defaults over boundaries, one past, 0, -1, type min/max and random values for every field whose range the API header and the user guide state consistently (70 fields), documented cross constraints, and documentation-free metamorphic checks (accepted set is an interval; unrelated fields never flip acceptance). ~1300 set_parameter calls per run.",
          "Fields where header and guide contradict each other or give no range get no verdict (listed in evidence). The predicate is a transcription of the documents, each rule carries its citation."),
